@@ -19,9 +19,9 @@ pub struct C01;
 pub const NODE_STACK: usize = 2 << 20;
 
 const LIVE_BASE: usize = 64 << 10;
-const LIVE_PER_BYTE: usize = 512;
+const LIVE_PER_BYTE: usize = 1024;
 const TOTAL_BASE: usize = 64 << 10;
-const TOTAL_PER_BYTE: usize = 2048;
+const TOTAL_PER_BYTE: usize = 4096;
 /// allocation beyond this many live bytes is refused (the node then aborts)
 const HARD_CAP: usize = 3 << 30;
 
@@ -48,9 +48,12 @@ fn op<T>(st: &mut RunStats, what: &str, ep: &str, handed: usize, f: impl FnOnce(
     let u = alloc::end(base);
     let b = budget(handed);
     st.inc("evaluations");
-    if handed > 0 {
-        st.max("max:live_bytes_per_input_byte_x100", (u.peak_live * 100 / handed.max(64)) as u64);
-        st.max("max:total_bytes_per_input_byte_x100", (u.total * 100 / handed.max(64)) as u64);
+    if handed >= 4096 {
+        st.max("max:live_bytes_per_input_byte_x100(inputs>=4KiB)", (u.peak_live * 100 / handed) as u64);
+        st.max("max:total_bytes_per_input_byte_x100(inputs>=4KiB)", (u.total * 100 / handed) as u64);
+    } else {
+        st.max("max:live_bytes(inputs<4KiB)", u.peak_live as u64);
+        st.max("max:total_bytes(inputs<4KiB)", u.total as u64);
     }
     match r {
         Err(p) => Err(Violation::new("C01.panic", format!("{} at {}: {}", what, ep, p))),
@@ -70,6 +73,36 @@ fn op<T>(st: &mut RunStats, what: &str, ep: &str, handed: usize, f: impl FnOnce(
             Ok(v)
         }
     }
+}
+
+/// Time envelope: 250 ms + 10 us per byte handed in (measured legitimate cost is ~0.1 us per
+/// byte, so the margin is ~100x plus a quarter second).  A breach is re-measured three times in
+/// this process and only the minimum counts, so scheduling noise cannot raise an alarm; the
+/// supervisor re-executes the case alone in a fresh process before anything is reported.
+fn slow_check(st: &mut RunStats, what: &str, ep: &str, handed: usize, first: std::time::Duration, again: impl FnMut()) -> Option<Violation> {
+    let limit = std::time::Duration::from_micros(250_000 + 10 * handed as u64);
+    st.max("max:op_micros", first.as_micros() as u64);
+    if first <= limit {
+        return None;
+    }
+    st.inc("probe:slow-op-remeasured");
+    let mut again = again;
+    let mut best = first;
+    for _ in 0..3 {
+        let t = std::time::Instant::now();
+        again();
+        let e = t.elapsed();
+        if e < best {
+            best = e;
+        }
+        if best <= limit {
+            return None;
+        }
+    }
+    Some(Violation::new(
+        "C01.slow",
+        format!("{} at {}: {} us for {} bytes handed in (envelope {} us; minimum of 4 measurements)", what, ep, best.as_micros(), handed, limit.as_micros()),
+    ))
 }
 
 fn pick_indices(n: usize) -> Vec<usize> {
@@ -233,7 +266,7 @@ impl Engine for C01 {
             distinct_classes: &["(endpoint, outcome class, first fault kind) triples", "fault-kind multisets"],
             assumptions: &[
                 "'ordinary thread stack' = Rust's default 2 MiB for spawned threads, release-profile code generation (overflow checks and debug assertions on)",
-                "'memory proportional to the input' = peak live <= 64 KiB + 512 x bytes handed in and cumulative <= 64 KiB + 2048 x bytes handed in, per operation (constants >= 4x the measured worst legitimate case)",
+                "'memory proportional to the input' = peak live <= 64 KiB + 1024 x bytes handed in and cumulative <= 64 KiB + 4096 x bytes handed in, per operation (measured worst legitimate shapes: COSE_Sign with 10^4 minimal signers 206x live / 432x cumulative, ~270x / ~550x at the worst Vec-doubling point; margins ~4x and ~7x)",
                 "signer indices: every index up to 12 signers/recipients, otherwise 9 spread indices (tbs construction copies the payload, so all-indices would be quadratic in the harness)",
                 "sampled neighbourhood of valid traffic and the nesting axes, not all byte strings; inputs up to 64 KiB (quick) / 1 MiB (thorough)",
                 "std-feature configuration: the same engine built with coset/std runs a quarter of the run indices again",
@@ -277,6 +310,9 @@ impl Engine for C01 {
         let c = gen_case(&mut rng, cap);
         t.set_meta("base", c.base_type.clone());
         t.set_meta("faults", if c.faults.is_empty() { "none".to_string() } else { c.faults.join("+") });
+        if let Some(d) = c.depth {
+            t.set_meta("depth", d.to_string());
+        }
         let bp = bytes_palette();
         let aad = bp[rng.weighted(&[10, 6, 10, 4, 4, 4, 2, 2, 1, 0, 0])].clone();
         let payload = bp[rng.weighted(&[10, 6, 10, 4, 4, 4, 2, 2, 1, 1, 0])].clone();
@@ -371,10 +407,16 @@ impl Engine for C01 {
                     continue;
                 }
             }
+            let t0 = std::time::Instant::now();
             let r = match op(st, "decode", ep.name, bytes.len(), || (ep.decode)(&bytes)) {
                 Ok(r) => r,
                 Err(v) => return Ok(Some(v)),
             };
+            if let Some(v) = slow_check(st, "decode", ep.name, bytes.len(), t0.elapsed(), || {
+                let _ = guarded(|| (ep.decode)(&bytes));
+            }) {
+                return Ok(Some(v));
+            }
             let class = match &r {
                 Ok(_) => "accepted",
                 Err(e) => err_class(e),
@@ -390,10 +432,21 @@ impl Engine for C01 {
                     if faults != "none" && ep.ty != "Value" {
                         accepted_any = true;
                     }
-                    if let Some(depth) = nest_depth(&faults, &bytes) {
-                        st.max(&format!("max:accepted-depth:{}", first_fault), depth as u64);
+                    if ep.ty != "Value" && faults.starts_with("nest(") && !faults.contains('+') {
+                        if let Some(depth) = t.meta("depth").and_then(|d| d.parse::<u64>().ok()) {
+                            st.max(&format!("max:accepted-depth:{}", first_fault), depth);
+                        }
                     }
+                    let t1 = std::time::Instant::now();
                     if let Err(v) = followups(st, ep, &d, bytes.len(), &aad, &payload, ok) {
+                        return Ok(Some(v));
+                    }
+                    let handed = bytes.len() + aad.len() + payload.len();
+                    let el = t1.elapsed();
+                    let mut scratch = RunStats::default();
+                    if let Some(v) = slow_check(st, "follow-up operations", ep.name, handed, el, || {
+                        let _ = followups(&mut scratch, ep, &d, bytes.len(), &aad, &payload, ok);
+                    }) {
                         return Ok(Some(v));
                     }
                     if let Err(v) = op(st, "drop", ep.name, bytes.len(), move || drop(d)) {
@@ -416,23 +469,6 @@ impl Engine for C01 {
         let first = faults.split('+').next().unwrap_or("none");
         format!("{}:{}", invariant, first)
     }
-}
-
-/// For nesting cases: a rough depth measure (number of leading structure bytes) for the probe.
-fn nest_depth(faults: &str, bytes: &[u8]) -> Option<usize> {
-    if !faults.starts_with("nest(") {
-        return None;
-    }
-    // count nesting levels by the number of 0x07 labels / 0x81 heads etc. is axis-specific; use
-    // the length as a proxy divided by the per-level size of the axis
-    let per = if faults.contains("protected-countersig") || faults.contains("kdf") || faults.contains("array)") && faults.contains("countersig") {
-        8
-    } else if faults.contains("countersig") || faults.contains("recipients") {
-        5
-    } else {
-        2
-    };
-    Some(bytes.len() / per)
 }
 
 #[allow(dead_code)]
